@@ -5,6 +5,8 @@
  */
 #include "world_enum.h"
 #include <time.h>
+#include <sys/stat.h>
+#include <sys/prctl.h>
 
 int m_set_memhook(void *(*)(size_t), void *(*)(size_t, size_t), void (*)(void *));
 
@@ -27,6 +29,16 @@ static const profile_t PROFILES[] = {
       (1u << A_BECOME) | (1u << A_UNBECOME) | (1u << A_STASH), (1u << CB_EVT), 0, 0 },
     { "C19", 2, G_REG | G_LIFE | G_SUB | G_QUIT | G_TICK | G_ENV | G_PILL,                   RL_BASE | R_PS | R_SY | R_EV,       0, "01000100", 1 | 4, 1, 1,
       0, 0, (1u << P_CTX_STARTED) | (1u << P_CTX_STOPPED) | (1u << P_CTX_TICK) | (1u << P_MOD_STARTED) | (1u << P_MOD_STOPPED), 0 },
+    { "C09", 1, G_SRC | G_SUB | G_LIFE | G_ILLEGAL | G_BADPARAM,                             RL_BASE | R_SR,                     0, "01000100" "07000100", 1, 0, 1,
+      0, 0, (1u << P_T) | (1u << P_U) | (1u << P_RT), 0, 0x7f, 1 },
+    { "C03", 2, G_SRC | G_READY | G_ENV | G_MSG | G_LIFE | G_QUIT | G_ARM | G_EPOLLFAULT | G_SUB, RL_BASE | R_PS | R_SR | R_LP | R_EV,  1, "01000100" "07000100" "07010100" "04000000", 1, 0, 1,
+      (1u << A_ERRNO) | (1u << A_STOP) | (1u << A_PAUSE) | (1u << A_QUIT), (1u << CB_EVT), (1u << P_T), (1u << T_T), (1u << K_FD) | (1u << K_TMR), 1 | 4 },
+    { "C13", 1, G_MSG | G_SUB | G_PRIO | G_BATCH | G_ENV | G_LIFE | G_SRC | G_READY,         RL_BASE | R_PS | R_FIFO | R_BA,     0, "01000100" "07000100" "07010100" "04000000", 1, 0, 1,
+      0, 0, (1u << P_T) | (1u << P_U), (1u << T_T) | (1u << T_U), (1u << K_FD), 1 },
+    { "C18", 2, G_MSG | G_SUB | G_BUCKET | G_ENV | G_BECOME | G_PILL | G_SRC,                RL_BASE | R_PS | R_TB | R_SR,       0, "01000100" "07000100" "07010100" "04000000", 1, 0, 1,
+      0, 0, (1u << P_T), (1u << T_T), (1u << K_TMR), 1 },
+    { "C20", 2, G_SRC | G_READY | G_ENV | G_LIFE | G_PILL | G_ARM | G_REFS | G_REG,          RL_BASE | R_SR | R_FD,              1, "01000100", 1, 1, 1,
+      (1u << A_DEREG) | (1u << A_RETAIN) | (1u << A_STOP), (1u << CB_EVT) | (1u << CB_START), 0, 0, (1u << K_FD) | (1u << K_TMR), 0xff },
     { "SMOKE", 2, G_LIFE | G_REG | G_MSG | G_QUIT,                                          RL_BASE | R_EV | R_PS,              0, "01000100", 1, 0, 1, 0, 0, 0, 0 },
 };
 #define NPROFILES ((int)(sizeof PROFILES / sizeof *PROFILES))
@@ -136,7 +148,16 @@ static int run_child(const hist_t *h, int probe) {
     return 1;
 }
 
+static pid_t main_pid;
+static void world_atexit(void) {
+    if (getpid() != main_pid) return;
+    for (int i = 0; i < 2; i++) if (CHILD[i] > 0) { kill(CHILD[i], SIGKILL); waitpid(CHILD[i], NULL, 0); }
+    char base[48]; snprintf(base, sizeof base, "/tmp/vworld.%d", (int)getpid());
+    for (int i = 0; i < 2; i++) rmdir(PATHS[i]);
+    rmdir(base);
+}
 int main(int argc, char **argv) {
+    main_pid = getpid();
     const char *replay = NULL, *fmt = NULL; int worker = 0, probe = -2;
     for (int i = 1; i < argc; i++) {
         if (!strcmp(argv[i], "--prop") && i + 1 < argc) PROP = argv[++i];
@@ -154,6 +175,12 @@ int main(int argc, char **argv) {
     RULES = P.rules | R_FD;
     snprintf(cfg_str, sizeof cfg_str, "world prop=%s modules=%d maxdev=%d", P.prop, P.nmods, P.maxdev);
     model_reset();            /* computes the pattern/topic match table once, before any fork */
+    if (P.kinds & ((1u << K_PATH) | (1u << K_PID))) {      /* real directories and real child processes as path / pid keys */
+        char base[48]; snprintf(base, sizeof base, "/tmp/vworld.%d", (int)getpid()); mkdir(base, 0700);
+        for (int i = 0; i < 2; i++) { snprintf(PATHS[i], sizeof PATHS[i], "%s/d%d", base, i); mkdir(PATHS[i], 0700); }
+        for (int i = 0; i < 2; i++) { CHILD[i] = fork(); if (CHILD[i] == 0) { prctl(PR_SET_PDEATHSIG, SIGKILL); for (;;) pause(); } }
+        atexit(world_atexit);
+    }
     setvbuf(stdout, NULL, _IOLBF, 0);
     signal(SIGPIPE, SIG_IGN);
     if (fmt) {      /* print prelude + history as JSON list of readable ops */
